@@ -101,6 +101,21 @@ fn install_script(world: &Arc<World>, tcfg: &TraceCfg, density_pct: u64, round_n
             let bytes = forge::echo_reply(v6, target, host4, host6, id, seq, 8);
             out.push(forge::injected(r.range(1_000, round_ns), v6, bytes, target, PktClass::Forged(Forgery::OtherTracer)));
         }
+        if tcfg.protocol != Protocol::Icmp && r.chance(density_pct, 100) {
+            // an ICMP echo reply (identifier 0 = "any", or the tracer's own) naming the sequence
+            // of the UDP / TCP probe just sent: not a response to a UDP or TCP probe
+            let id = if r.chance(1, 2) { 0 } else { tcfg.trace_id };
+            let bytes = forge::echo_reply(v6, target, host4, host6, id, seq, 8);
+            out.push(forge::injected(r.range(1_000, round_ns / 2 + 1_001), v6, bytes, target, PktClass::Forged(Forgery::OtherProto)));
+        }
+        if tcfg.protocol == Protocol::Udp && tcfg.strategy == MultipathStrategy::Dublin && v6 && seq == tcfg.initial_sequence && transit.len() >= 48 {
+            // another process on the host sends an empty datagram along the same flow (same
+            // addresses and ports): its quotation carries no marker at all
+            let mut d = transit[..48].to_vec();
+            d[4..6].copy_from_slice(&8u16.to_be_bytes());
+            d[44..46].copy_from_slice(&8u16.to_be_bytes());
+            push(&mut out, r, Forgery::NoMagic, d, false);
+        }
         if tcfg.protocol == Protocol::Udp && tcfg.strategy == MultipathStrategy::Dublin && v6 && r.chance(density_pct, 100) {
             // Dublin marker removed
             let mut d = transit.clone();
@@ -139,7 +154,9 @@ pub fn scenario(seed: u64, i: usize, cells: &[Cell], tier: Tier) -> Scenario {
     tcfg.max_ttl = r.range(4, 30) as u8;
     // wrap-around inside the run: start close below the wrap point
     tcfg.initial_sequence = *r.pick(&[0u16, 33434, 64_511, 64_300, 64_000]);
-    tcfg.trace_id = *r.pick(&[1234u16, 65_534, 65_535, 1]);
+    // (0 is the library's default identifier: such a tracer must still ignore responses that
+    // carry another tracer's non-zero identifier)
+    tcfg.trace_id = *r.pick(&[1234u16, 65_534, 65_535, 1, 0]);
     let mut o = TopoOpts::hostile(round_ms * 1_000_000 / 3);
     o.max_hops = 10;
     o.allow_ext = false;
